@@ -128,3 +128,34 @@ TEMPLATES = {
 
 def g3_shards(names=None):
     return [{"template": TEMPLATES[n], "template_name": n} for n in (names or list(TEMPLATES))]
+
+
+# G1-Sigma (C01's quantifier: "every sequence over the Markdown-significant alphabet"): all
+# documents of a fixed length whose every cell ranges over a small alphabet; the alphabet is a z3
+# disjunction on each cell, the solver explores the behaviours.
+ALPHABETS = {
+    "emphasis": "*_a `",
+    "links": "[]()a!",
+    "containers": ">- \na1.",
+    "leaf": "#=`~\n a-",
+}
+
+
+def in_alphabet(c, name):
+    for ch in ALPHABETS[name]:
+        if c == ord(ch):
+            return True
+    return False
+
+
+def sigma_shards(name, length, split=1):
+    """all documents of exactly `length` cells over ALPHABETS[name]; the first `split` cells
+    are fixed per shard (disjoint shards)."""
+    import itertools
+
+    alpha = ALPHABETS[name]
+    shards = []
+    for prefix in itertools.product(alpha, repeat=min(split, length)):
+        sk = "".join(prefix) + "?" * (length - len(prefix))
+        shards.append({"skeleton": sk, "holes": list(range(len(prefix), length)), "alphabet": name})
+    return shards
